@@ -1,6 +1,7 @@
 """Entries for checks/registry.py proposed by the failure / cancellation / retry family (C03, C04, C05, C28)."""
 
-HOOK_COMMITS = ['7ff1bc5']   # verif: export wrapper VerifPipeState (new file verif_export_faults.go); no new hook call sites
+HOOK_COMMITS = ['7ff1bc5',   # verif: export wrapper VerifPipeState (new file verif_export_faults.go)
+                'cbde64d']   # verif: hook pipe.sync at the entry of pipe.syncDo/syncDoMulti (sandbox faults2; round 2)
 
 CHECKS = {
  'C03': dict(
@@ -16,12 +17,17 @@ CHECKS = {
          'pipe.go can indeed hand errConnExpired to an executed command. TLC simulation of the same module generates outcome scripts with '
          'the predicted number of receptions/executions and result; faultdrv plays each script into the real client (fault placed by the fake '
          'server at the n-th reception of the tagged request; expiry by a 500 ms ConnLifetime and a held reply) and RetryTrace.tla counts '
-         'executions per request id on the recorded trace.',
-    design_ref='DESIGN.md 4.2, 4.5, 5 C03, 7 #10',
-    note='Trusted: TLC, fakeredis (an execution is an SExec event of the tagged request). Bounded: one command per call (cluster batch: one '
-         'member + one sibling), <=3 transmissions in quick scripts; scripts are sampled by seeded simulation and strata, not exhaustive; '
-         'MULTI/EXEC blocks re-sent from txIdx are not scripted. Known finding #10 (expiry after write on a pipelined connection) is '
-         'reported as KNOWN-FINDING.'),
+         'executions per request id on the recorded trace. Round 2 (design/faults.md): calls are one command, a two-command DoMulti of '
+         'every combination of member classes, or MULTI, two commands, EXEC, on every wrapper (each member judged on its own; breaks '
+         'before / after execution and in the middle of the reply stream of the batch); the connection mode (synchronous path / pipelined) '
+         'is a dimension of every script and is observed through the hook pipe.sync: ConnLifetime expiry under a request in flight is '
+         'errConnExpired when pipelined (known finding) and an I/O error on the synchronous path (a re-send there is a violation).',
+    design_ref='DESIGN.md 4.2, 4.5, 5 C03, 7 #10; design/faults.md round 2',
+    note='Trusted: TLC, fakeredis (an execution is an SExec event of the tagged request; a member of a block is executed when EXEC runs '
+         'it). Bounded: <=2 members per batch / block, <=3 transmissions in quick scripts; scripts are sampled by seeded simulation and '
+         'strata (expiry on the synchronous path and mixed batches are mandatory strata), not exhaustive; LOADING-like refusals and '
+         'lifetime expiry inside a cluster block are not scripted. Known finding #10 (expiry after write on a *pipelined* connection, '
+         'signature with path=pipelined) is reported as KNOWN-FINDING.'),
  'C04': dict(
     level='model_checking',
     technique='TLA+ spec of the call path of pipe.go (Pipe.tla) checked by TLC incl. liveness + the TLC counterexample schedule of the '
@@ -33,7 +39,9 @@ CHECKS = {
          'goroutines only, pending ~> returned after a break/Close; negative configs re-introduce the entry race of the pinned commit, a '
          'clean-up loop that does not drain, the removed deferred error and a Close that keeps the connection. The schedule of the entry-race '
          'counterexample is parsed from TLC\'s output and forced through a real pipe (hook pipe.enter holds a caller between incrWaits and '
-         'the state load). FaultGen.tla enumerates 2 866 scenarios (mix of pending Do/DoMulti/DoCache owner+waiter/BLPOP/Receive x cut of all '
+         'the state load). FaultGen.tla enumerates 4 566 scenarios (round 2: + an unsolicited unsubscribe push before the break, steady new short-lived calls '
+         'on a silently dead connection, a dedicated client whose command connection breaks while its Receive waits - RESP2: on the second '
+         'connection of the wire - and which is then released; the round-1 space: mix of pending Do/DoMulti/DoCache owner+waiter/BLPOP/Receive x cut of all '
          'connections, cut before exec / after exec / mid-reply of a trigger batch, silent server with keep-alive watchdog, Close, '
          'DedicatedClient.Close, failed dial then Close x sync/pipelined x warm); a stratified sample runs on the real client and FaultTrace.tla '
          'decides from the trace which calls must have returned, which results are allowed (no fabricated value, errors need a cause), that '
@@ -50,15 +58,18 @@ CHECKS = {
     text='Pipe.tla: (pending and context done) ~> returned with fairness only on the client\'s own steps (queue wait with a stalled server, '
          'flow buffer vs ring: MC_live_ring shows the ring\'s documented limitation in the model); Pool.tla liveness and the lost-wake-up '
          'schedule on the real pool (poolcommon). On the real client: every FaultGen.tla scenario whose contexts end (cancel / 400 ms '
-         'deadline) while the server holds all replies - pipeline wait, cache flight of another caller, blocking command, queue of 2 slots '
-         'with four calls - in a process with RUEIDIS_QUEUE_TYPE unset and another with flowbuffer; FaultTrace.tla requires a return within '
+         'deadline / deadline far away cancelled by hand) while the server holds all replies, answers LOADING or leaves the HELLO of a new '
+         'connection unanswered - pipeline wait, cache flight of another caller, blocking command, second blocking command with a pool of '
+         'one, retry back-off of Do and DoMulti (9 s), handshake of a new connection (first blocking command, DisableAutoPipelining pool, '
+         're-dial after a break; Dialer.Timeout 60 s), queue of 2 slots with four calls - in a process with RUEIDIS_QUEUE_TYPE unset and another with flowbuffer; FaultTrace.tla requires a return within '
          '5 s of the context\'s end (12 s = hang), the context\'s error, and no SRecv for calls whose context was already done. Retry back-off: '
          'Retry.tla scripts with contexts ending between attempts and a RetryDelay (120 s) beyond the deadline (60 s) must return at once '
          'and must not spin.',
     design_ref='DESIGN.md 4.2, 4.4, 5 C05, 7 #3 #11',
     note='Trusted: TLC, fakeredis, real timers (thresholds generous; late/hanging calls are re-run before they are reported). Known finding '
          '#11 (ring: a call waiting for a free slot ignores its context) is reported as KNOWN-FINDING; the same symptom with the flow buffer '
-         'or while waiting for a reply is a violation.'),
+         'or while waiting for a reply is a violation. Manual cancellation of a context with a deadline is only required where the README promises it '
+         '(pipeline mode, and the places that select on ctx.Done() themselves); during a handshake only deadlines are required.'),
  'C28': dict(
     level='model_checking',
     technique='TLA+ spec of the retry wrappers checked by TLC against the policy predicates of RetryPolicy.tla + TLC-generated outcome '
@@ -68,7 +79,8 @@ CHECKS = {
          '(decision logic of the six wrappers) satisfies them exhaustively; negative configs: retry ignoring IsRetryable, retry on plain '
          'error replies, retry after context done / after Close (NoSpin), cluster batch re-sending an entry whose delay was negative. '
          'Generated scripts (380 quick / 3 000 thorough, all client kinds: single, standalone with REDIRECT, sentinel, dedicated, 2-node '
-         'cluster with MOVED/ASK, cluster DoMulti with a redirected sibling) run on the real client with a logging RetryDelay function; '
+         'cluster with MOVED/ASK, cluster DoMulti with a redirected sibling; round 2: + 160 DoMulti batches / MULTI ... EXEC blocks of every mix '
+         'of member classes, synchronous and pipelined connections) run on the real client with a logging RetryDelay function; '
          'RetryTrace.tla rebuilds the justification of every second SRecv of a request id from the trace and evaluates the predicates, '
          'checks that returned values/errors are the last reply unchanged, and flags wrappers that keep consulting RetryDelay after the '
          'context ended or Close returned.',
